@@ -2331,6 +2331,43 @@ def _int_consts(e, skip):
     return order
 
 
+def _shape_key(e):
+    """sexpr of e with every free Int constant other than a summation placeholder masked: an ordering key that does not depend on the names
+    of loop / bound variables (which differ between the code and a contract)"""
+    cs = [c for c in _int_consts(e, []) if not c.decl().name().startswith("sum__n")]
+    q = z3.Int("sum__any")
+    return z3.substitute(e, *[(c, q) for c in cs]).sexpr() if cs else e.sexpr()
+
+
+def _ac_norm(e):
+    """normal form modulo associativity / commutativity of real and integer + and *: nested sums / products are flattened and their operands put
+    in a fixed order, so that `a * b * c` and `b * (a * c)` summed in the code and in a contract denote the same Sum function (z3's arithmetic is AC,
+    but an uninterpreted Sum keyed by its body is not)."""
+    if not z3.is_app(e) or z3.is_quantifier(e) or e.num_args() == 0:
+        return e
+    k = e.decl().kind()
+    if k in (z3.Z3_OP_MUL, z3.Z3_OP_ADD):
+        flat = []
+
+        def gather(t):
+            if z3.is_app(t) and t.decl().kind() == k:
+                for ch in t.children():
+                    gather(ch)
+            else:
+                flat.append(_ac_norm(t))
+        gather(e)
+        flat.sort(key=_shape_key)      # stable: operands of equal shape keep their source order
+        out = flat[0]
+        for t in flat[1:]:
+            out = out * t if k == z3.Z3_OP_MUL else out + t
+        return out
+    ch = [_ac_norm(c) for c in e.children()]
+    try:
+        return e.decl()(*ch)
+    except Exception:       # noqa
+        return e
+
+
 def make_sum(body_fn, upto, path, tag="Sum"):
     """Sum(body, upto) = body(0) + ... + body(upto-1) as an application of a function S defined by
          S(p.., 0) = 0,   S(p.., n+1) = S(p.., n) + body(p.., n)   (n >= 0)
@@ -2341,7 +2378,7 @@ def make_sum(body_fn, upto, path, tag="Sum"):
     place = z3.Int(f"sum__n{depth}")
     _SUM_DEPTH[0] += 1
     try:
-        body0 = to_z3(body_fn(place), "real")
+        body0 = _ac_norm(to_z3(body_fn(place), "real"))
     finally:
         _SUM_DEPTH[0] -= 1
     _SUM_PLACE = place
